@@ -81,7 +81,14 @@ fn run_one(m: &str, st: u16, cls: &[&str], tes: &[&str], others: &(Vec<(&str, &s
     head.extend_from_slice(b"\r\n");
     let mut wire = head.clone();
     wire.extend_from_slice(body);
-    let reads = Reads::Sizes(vec![2, 1 << 16, 1 << 16, 1 << 16, 7]);
+    // one case in four looks at the body through the BufRead view (what the content decoders read from): the
+    // framing decision bounds what `fill_buf` shows just as it bounds what `read` returns (seed C03-seed9)
+    let reads = if (cls.len() + tes.len() + bi + st as usize + m.len()) % 4 == 0 {
+        use crate::resp::BOp;
+        Reads::BufOps(vec![BOp::Fill, BOp::ConsumeUpTo(2), BOp::Fill, BOp::ConsumeUpTo(1 << 16), BOp::Fill, BOp::ConsumeUpTo(1 << 16), BOp::Fill, BOp::ConsumeUpTo(1 << 16), BOp::Fill, BOp::Read(7)])
+    } else {
+        Reads::Sizes(vec![2, 1 << 16, 1 << 16, 1 << 16, 7])
+    };
     let case = RespCase { method: m.into(), max_headers: 100, segs: vec![Seg::Data(wire.clone())], reads };
     let out = run_resp(&case);
     let mut expect = rfc_framing(m, st, cls, tes);
